@@ -113,6 +113,10 @@ def pattern_settings():
         mk([C([2])], [C([0, 1]), C([0, 1]), C([0, 1])], name='unordered combining 2 of 3'),
         mk([C([2])], [C(min_=0), C(min_=0), C(min_=0)], name='unordered combining with replacement'),
         mk([C([0, 2])], [C([1]), C([0, 1])], name='non-contiguous degree list'),
+        mk([C(min_=1)], [C([0, 1, 2]), C([0, 1, 2, 3])], name='11 matrices (recursive enumeration: 1010b)'),
+        mk([C(min_=0)], [C([0, 1, 2, 3]), C([0, 1, 2, 3, 4])], mcp=4, name='20 matrices (recursive enumeration: 10011b)'),
+        mk([C(min_=2), C(min_=2)], [C(min_=0), C(min_=0)], name='assigning min 2 repeatable'),
+        mk([C(min_=0), C(min_=0)], [C(min_=2), C(min_=2)], name='assigning min 2 repeatable (targets)'),
         mk([C([1])], [C([1])], name='exactly one matrix'),
     ]
     return out
@@ -199,6 +203,16 @@ def instances(tier, seed):
                     # all imputers on named settings, default + one rotating alternative on random ones
                     if s.get('name') or i_imp == d or i_imp == (k_s+i_enc) % n_imp:
                         add(k_s, s, kind, i_enc, i_imp)
+    if tier == 'quick':
+        # settings written for one encoder family are always run with that family
+        for sub, kind_ in (('recursive enumeration', 'enum'), ('assigning min 2', 'pattern'), ('assigning min 2', 'lazy'),
+                           ('partitioning', 'pattern'), ('11 matrices', 'eager')):
+            for f_idx, (kind, i_enc, _) in enumerate(facs):
+                if kind != kind_:
+                    continue
+                for s in named:
+                    if sub in (s.get('name') or ''):
+                        add(spool.index(s), s, kind, i_enc, default_imputer_idx(kind))
     seen, uniq = set(), []
     for i_ in out:
         if i_['label'] not in seen:
